@@ -162,10 +162,15 @@ fn c01_sig(case: &Case, sigil: &str, optname: &str, kind: &str, got: Option<&Out
         if sigil == "*standard-cl-22*" {
             let names = all_names(&case.prog);
             let leaked_value = matches!(got, Some(Out::Val(v)) if leaks_a_name(v, &names));
-            let leaked_code = code.map(|c| leaks_a_name(c, &[])).unwrap_or(false);
+            let leaked_code = code.map(|c| leaks_a_name(c, &names)).unwrap_or(false);
             if leaked_value || leaked_code {
                 return "cl22-frontend-optimiser/variable-replaced-by-its-name".to_string();
             }
+        }
+        if d.stepping.map(|s| s >= 23).unwrap_or(false) && text.matches("(x 13)").count() >= 2 && matches!(got, Some(Out::Err(e)) if e.contains("raise")) {
+            // the CSE pass binds a raise that occurs in two branches guarded by the same condition text
+            // in an eagerly evaluated let above those conditions
+            return "cse/repeated-raise-under-repeated-condition-lifted".to_string();
         }
         if sigil == "*strict-cl-21*" && optname != "run" && code.map(|c| contains_quoted_64(c)).unwrap_or(false) {
             return "strict-cl21-optimised/@-becomes-(q . 64)".to_string();
